@@ -5,7 +5,7 @@ from . import codes, common
 from panqec.config import DECODERS
 from panqec.error_models import PauliErrorModel
 
-SYNDROME_DTYPES = [None, 'int64', 'uint8', 'uint64', 'int32']
+SYNDROME_DTYPES = [None, 'int64', 'uint8', 'bool', 'uint64', 'int32']
 DECODE_TIMEOUT = 20       # seconds; a decode that never returns is a rejected event
 
 COMPLETE = {'MatchingDecoder', 'UnionFindDecoder', 'BeliefPropagationOSDDecoder'}
